@@ -129,3 +129,20 @@ theorem shr8 (c : Nat) : c >>> 8 = c / 256 := by simp [Nat.shiftRight_eq_div_pow
 
 end Py
 end SshAudit
+
+/-! ### shared by the `Props/GenLogic*.lean` files (each of which must stand on its own: none imports another) -/
+namespace SshAudit.GenLogic
+open SshAudit
+
+theorem fmtD_natCast (n : Nat) : Py.fmtD (n : Int) = Text.natToStr n := by
+  unfold Py.fmtD
+  have : ¬ ((n : Int) < 0) := by omega
+  simp [this]
+
+
+def encSize : Option Nat → Int
+  | some n => (n : Int)
+  | none => -1
+
+
+end SshAudit.GenLogic
